@@ -1089,6 +1089,7 @@ pub fn project(name: &str, trace: &[Value]) -> Vec<Value> {
         "dgram" => crate::proj_c16::dgram(trace),
         "zerortt" => crate::proj_c17::zerortt(trace),
         "tokens" => crate::proj_c14::tokens(trace),
+        "mtu" => crate::proj_c13::mtu(trace),
         "master" => trace.to_vec(),
         o => panic!("unknown projection {o}"),
     }
